@@ -62,7 +62,18 @@ def stub_materializer(cfg_name):
     return _STUBS[cfg_name]
 
 
+class StubBindingError(Exception):
+    """the library's internal rank-reduction functions could not be driven on the stub cache (their private interface changed)"""
+
+
 def run_stub(cfg_name, term_tuples, cluster):
+    try:
+        return _run_stub(cfg_name, term_tuples, cluster)
+    except (AttributeError, TypeError) as e:
+        raise StubBindingError("%s: %s" % (type(e).__name__, e))
+
+
+def _run_stub(cfg_name, term_tuples, cluster):
     """-> list of (term tuple, [scoped term as [(name, spans, reduced)]]) from the REAL rank-reduction code"""
     m = stub_materializer(cfg_name)
     terms = [Term([Factor(f, eval_method="literal" if f == "1" else "lookup") for f in t]) for t in term_tuples]
@@ -109,7 +120,13 @@ def drv_subsets(c, ctx, col):
     cluster = c.flag()
     terms = ([("1",)] if icpt else []) + chosen  # lattice order is degree order
     key = "subset %s terms=%s cluster=%s" % (cfg_name, "+".join(":".join(t) for t in terms), cluster)
-    emitted = run_stub(cfg_name, terms, cluster)
+    try:
+        emitted = run_stub(cfg_name, terms, cluster)
+    except StubBindingError:
+        # the atom engine drives private functions; if their interface changed it cannot decide anything (the numeric engine, which only uses
+        # the public API, still does)
+        col.count("stub-binding-failed")
+        raise Skip()
     atom_check(col, key, cfg_name, terms, emitted)
     if nontrivial(terms, CONFIGS[cfg_name]):
         col.interesting()
@@ -132,7 +149,13 @@ def drv_ordered(c, ctx, col):
         # every written order of the factors inside each interaction (a:A vs A:a, A:B:a vs B:a:A, ...)
         terms = [tuple(c.perm(list(t))) if len(t) > 1 else t for t in terms]
     key = "ordered %s terms=%s cluster=%s" % (cfg_name, " + ".join(":".join(t) for t in terms), cluster)
-    emitted = run_stub(cfg_name, terms, cluster)
+    try:
+        emitted = run_stub(cfg_name, terms, cluster)
+    except StubBindingError:
+        # the atom engine drives private functions; if their interface changed it cannot decide anything (the numeric engine, which only uses
+        # the public API, still does)
+        col.count("stub-binding-failed")
+        raise Skip()
     atom_check(col, key, cfg_name, terms, emitted)
     if nontrivial(terms, CONFIGS[cfg_name]):
         col.interesting()
@@ -251,7 +274,11 @@ def drv_numeric(c, ctx, col):
         for st in s.scoped_terms:
             sts.append([(_base(sf.factor.expr), CONFIGS[cfg_name][_base(sf.factor.expr)][1], bool(sf.reduced)) for sf in st.factors])
         emitted.append((tuple(_base(f.expr) for f in s.term.factors), sts))
-    stub = run_stub(cfg_name, terms, cluster)
+    try:
+        stub = run_stub(cfg_name, terms, cluster)
+    except StubBindingError:
+        col.count("stub-binding-failed")
+        stub = emitted
     if [sts for _, sts in emitted] != [sts for _, sts in stub]:
         col.violation(key, {"structure_flags": [sts for _, sts in emitted], "stub_flags": [sts for _, sts in stub]}, sig="binding:stub-vs-real-flags")
     v = atom_check(col, key, cfg_name, terms, emitted, extra={"formula": desc})
